@@ -191,6 +191,30 @@ def repo_tables():
     except Exception:
         excs = []
     out.append('def exceptionClasses : List String := %s' % llist(excs))
+    # default values of the parameters of the public entry points the models assume (inspect.signature)
+    api = []
+    try:
+        from oslo_policy import policy, shell
+        for label, fn, params in (
+                ('Enforcer', policy.Enforcer.__init__, ('policy_file', 'rules', 'default_rule', 'use_conf', 'overwrite',
+                                                        'fallback_to_json_file')),
+                ('Enforcer.enforce', policy.Enforcer.enforce, ('do_raise', 'exc')),
+                ('Enforcer.authorize', policy.Enforcer.authorize, ('do_raise', 'exc')),
+                ('Enforcer.load_rules', policy.Enforcer.load_rules, ('force_reload',)),
+                ('Enforcer.set_rules', policy.Enforcer.set_rules, ('overwrite', 'use_conf')),
+                ('Enforcer.check_rules', policy.Enforcer.check_rules, ('raise_on_violation',)),
+                ('Rules.load', policy.Rules.load, ('default_rule',)),
+                ('Rules.from_dict', policy.Rules.from_dict, ('default_rule',)),
+                ('RuleDefault', policy.RuleDefault.__init__, ('deprecated_rule', 'deprecated_for_removal', 'scope_types')),
+                ('shell.tool', shell.tool, ('is_admin', 'target_file', 'enforcer_config'))):
+            sig = inspect.signature(fn)
+            for prm in params:
+                d = sig.parameters[prm].default if prm in sig.parameters else '<missing>'
+                api.append(['%s.%s' % (label, prm), '<required>' if d is inspect.Parameter.empty else repr(d)])
+    except Exception:
+        api = []
+    out.append('/-- defaults of the public entry points (`inspect.signature`) -/')
+    out.append('def apiDefaults : List (String × String) := [%s]' % ', '.join('(%s, %s)' % (lstr(a), lstr(b)) for a, b in api))
     out.append('end OsloPolicy.Generated')
     return '\n'.join(out) + '\n'
 
